@@ -8,6 +8,8 @@ import numpy as np
 
 import finam as fm
 
+import _guard
+
 T0 = datetime(2000, 1, 1)
 D = timedelta(days=1)
 
@@ -69,7 +71,8 @@ def weighted_sum(n_consumers, steps):
     wb.outputs["Out"] >> ws.inputs["B_weight"]
     for c in cons:
         ws.outputs["WeightedSum"] >> c.inputs["In"]
-    comp.run(end_time=T0 + 6 * D)
+    with _guard.limit(120.0):
+        comp.run(end_time=T0 + 6 * D)
     bad = [(i, t, v) for i, t, v in log if abs(v - (0.25 * t.day + 0.75 * 10.0 * t.day)) > 1e-9]
     return log, bad
 
